@@ -12,7 +12,7 @@ from __future__ import annotations
 import ast
 
 from .model import call_name, norm, strip_copy
-from .poly import Rat, eval_expr, sqrt_of
+from .poly import Rat, eval_expr, sign_atom, sqrt_of
 from .report import AnalysisError
 
 STRIP_SUBSCRIPTS = ("[None, :]", "[:, None]", "[:, np.newaxis]", "[np.newaxis, :]")
@@ -28,7 +28,9 @@ def opaque_pow(base: Rat, exp: Rat) -> Rat:
 
 
 class SymEnv:
-    def __init__(self, init: dict[str, Rat] | None = None, call_syms=None):
+    def __init__(self, init: dict[str, Rat] | None = None, call_syms=None, cls=None, depth=0):
+        self.cls = cls  # ClassInfo: private, un-memoised helper methods called on self are inlined
+        self.depth = depth
         self.env: dict[str, Rat] = dict(init or {})
         self.calls: list[str] = []
         self.call_syms = call_syms or {}
@@ -90,9 +92,29 @@ class SymEnv:
                 return sqrt_of(self.ev(e.args[0]))
             if cn in ("np.sin", "np.cos", "sin", "cos", "math.sin", "math.cos") and len(e.args) == 1:
                 a = self.ev(e.args[0])
-                name = f"{cn.split('.')[-1]}[{a!r}]"
+                fn = cn.split(".")[-1]
+                # sin(g*x) = g*sin(x), cos(g*x) = cos(x) for a sign g (g*g == 1)
+                factor = Rat.const(1)
+                for g in sorted(x for x in a.symbols() if x.startswith("sgn[")):
+                    b = a * Rat.sym(g)
+                    if g not in b.symbols():
+                        a = b
+                        if fn == "sin":
+                            factor = factor * Rat.sym(g)
+                name = f"{fn}[{a!r}]"
                 self.trig[name] = a
-                return Rat.sym(name)
+                return factor * Rat.sym(name)
+            if cn in ("abs", "np.abs", "np.absolute", "np.fabs", "math.fabs") and len(e.args) == 1:
+                a = self.ev(e.args[0])
+                return sign_atom(repr(a)) * a
+            if cn in ("np.sign", "math.copysign") and len(e.args) == 1:
+                return sign_atom(repr(self.ev(e.args[0])))
+            h = self._helper(e)
+            if h is not None:
+                v = self._inline(h, e)
+                if isinstance(v, list):
+                    raise AnalysisError(f"symbolic execution: tuple-valued helper used as a scalar: {norm(e)[:60]}")
+                return v
             if cn in ("exp", "np.exp", "math.exp", "log", "np.log", "math.log") and len(e.args) == 1:
                 a = self.ev(e.args[0])
                 return Rat.sym(f"{cn.split('.')[-1]}[{a!r}]")
@@ -107,14 +129,51 @@ class SymEnv:
             return Rat.sym(f"call[{k}]")
         raise AnalysisError(f"symbolic execution: expression outside grammar: {norm(e)[:70]}")
 
+    def _helper(self, e: ast.Call):
+        """FuncInfo of a private, un-memoised helper method called as self._name(...), if any."""
+        if self.cls is None or self.depth > 3:
+            return None
+        if isinstance(e.func, ast.Attribute) and isinstance(e.func.value, ast.Name) and e.func.value.id == "self" and e.func.attr.startswith("_") and not e.func.attr.startswith("__"):
+            f = self.cls.resolve(e.func.attr)
+            if f is not None and f.cache_deps is None and not f.is_property and not f.is_abstract:
+                return f
+        return None
+
+    def _inline(self, f, call: ast.Call):
+        params = f.params[1:]
+        if call.keywords and any(k.arg is None for k in call.keywords):
+            raise AnalysisError(f"symbolic execution: **kwargs in helper call {norm(call)[:50]}")
+        binds = {}
+        for prm, a in zip(params, call.args):
+            binds[prm] = self.ev(a)
+        for kw in call.keywords:
+            binds[kw.arg] = self.ev(kw.value)
+        sub = SymEnv({k: v for k, v in self.env.items() if k.startswith("self.")}, cls=self.cls, depth=self.depth + 1)
+        sub.env.update(binds)
+        body = f.body_without_docstring()
+        if not body or not isinstance(body[-1], ast.Return) or any(isinstance(n, ast.Return) for st in body[:-1] for n in ast.walk(st)):
+            raise AnalysisError(f"symbolic execution: helper {f.qualname} is not straight-line with a final return")
+        sub.run(body[:-1])
+        rv = body[-1].value
+        out = [sub.ev(x) for x in rv.elts] if isinstance(rv, ast.Tuple) else sub.ev(rv)
+        self.trig.update(sub.trig)
+        self.calls.extend(sub.calls)
+        return out
+
     def exec(self, st: ast.stmt) -> None:
         if isinstance(st, ast.Expr) and isinstance(st.value, ast.Constant):
             return
         if isinstance(st, ast.Assign) and len(st.targets) == 1:
             t = st.targets[0]
             if isinstance(t, ast.Tuple):
+                vals = None
                 if isinstance(st.value, ast.Tuple) and len(t.elts) == len(st.value.elts):
                     vals = [self.ev(x) for x in st.value.elts]
+                elif isinstance(st.value, ast.Call) and self._helper(st.value) is not None:
+                    vals = self._inline(self._helper(st.value), st.value)
+                    if not isinstance(vals, list) or len(vals) != len(t.elts):
+                        raise AnalysisError(f"symbolic execution: helper does not return {len(t.elts)} values: {norm(st)[:60]}")
+                if vals is not None:
                     for tt, vv in zip(t.elts, vals):
                         self.env[self.key(tt)] = vv
                         self.log.append((self.key(tt), vv))
